@@ -453,6 +453,40 @@ func (h *Hist) ActIntent() {
 	}
 }
 
+// RestartNode stops the producing node and starts it again on its database (keep: also on its consensus database,
+// so that consensus points are read back from storage instead of recomputed).
+func (h *Hist) RestartNode(keep bool) bool {
+	// the unconfirmed blocks are not persisted; they come back the way they would on a network: from the peers'
+	// pools, by gossip (the histories' models observe the pool frontier and do not expect it to move backwards)
+	var pool []*nom.AccountBlock
+	for _, b := range h.A.Chain.GetAllUncommittedAccountBlocks() {
+		if b.BlockType != nom.BlockTypeContractSend {
+			pool = append(pool, b)
+		}
+	}
+	defer func() {
+		if wb, err := WireBlocks(pool); err == nil {
+			for _, b := range wb {
+				if err := h.A.Bridge.AddAccountBlocks([]*nom.AccountBlock{b}); err != nil {
+					h.C.Failf("sim/restart-pool", "after a restart the node refuses block %v/%d that was in its own pool before: %v", b.Address, b.Height, err)
+				}
+			}
+		}
+	}()
+	nn, err := h.A.Restart(keep)
+	if err != nil {
+		h.C.Failf("sim/restart-failed", "the node cannot restart on its own database: %v", err)
+		return false
+	}
+	nn.PreflightOn = h.A.PreflightOn
+	nn.OnBlock = h.A.OnBlock
+	nn.MethodErrs = h.A.MethodErrs
+	h.W.Replace(h.A, nn)
+	h.A = nn
+	h.C.Note("producer restarted (consensus database kept: %v)", keep)
+	return true
+}
+
 // ActProduce produces the next momentum (skipping 0..k slots) with the real pillar worker.
 func (h *Hist) ActProduce() { h.Produce(h.C.Weighted("skip", 6, 2, 1, 1)) }
 
